@@ -18,13 +18,9 @@ type NomErr<'a> = nom::error::Error<&'a [u8]>;
 pub fn outcome(bytes: &[u8], original: &[i32], orig_info: (usize, usize, usize)) -> char {
     let b = bytes.to_vec();
     let parsed = catch(move || match parser::stream::<NomErr>(&b) {
-        Ok((rest, s)) => {
-            if rest.is_empty() {
-                Some(s)
-            } else {
-                None
-            }
-        }
+        // `Ok` is acceptance whatever the unconsumed rest is: that is what a caller of
+        // `parser::stream` sees (the unchanged parser only returns `Ok` at end of input)
+        Ok((_rest, s)) => Some(s),
         Err(_) => None,
     });
     match parsed {
